@@ -549,3 +549,88 @@ Example C09_node_width_on_the_diamond_with_an_ignored_node :
   DilworthNode.node_incompatible xV xE [2; 3]%N.
 Proof. exact DilworthNode.node_diamond_ignoring_2. Qed.
 Print Assumptions C09_node_width_on_the_diamond_with_an_ignored_node.
+
+(* ---- audit additions (agent-c19) ---- *)
+(* the premises of C09_min_node_walk_cover_equals_node_walk_width had no instance: the 2-cycle 1 <-> 2 with start 1 and end 2
+   (source 100, sink 101 of the expansion) meets all of them -- every edge of the augmented expansion lies on a walk from the source
+   to the sink -- and the one walk 1,2 (also 1,2,1,2) covers both nodes.  With node 1 ignored the theorem still returns a walk. *)
+Example C09_node_walk_width_premises_satisfiable :
+  let V := [1; 2]%N in let E := [(1, 2); (2, 1)]%N in let S := [1%N] in let T := [2%N] in
+  ~ In 100%N (DilworthNode.expV V) /\ ~ In 101%N (DilworthNode.expV V) /\ 100%N <> 101%N /\
+  (forall e, In e E -> In (fst e) V /\ In (snd e) V) /\ NoDup V /\
+  (forall u v,
+     In (u, v) (Aug.aug_edges (DilworthNode.expV V) (DilworthNode.expE V E) (map DilworthNode.x0 S) (map DilworthNode.x1 T) 100%N 101%N) ->
+     Dilworth.conn (Aug.aug_edges (DilworthNode.expV V) (DilworthNode.expE V E) (map DilworthNode.x0 S) (map DilworthNode.x1 T) 100%N 101%N) 100%N u /\
+     Dilworth.conn (Aug.aug_edges (DilworthNode.expV V) (DilworthNode.expE V E) (map DilworthNode.x0 S) (map DilworthNode.x1 T) 100%N 101%N) v 101%N) /\
+  DilworthNode.nwalk V E S T [1; 2]%N /\ DilworthNode.nwalk V E S T [1; 2; 1; 2]%N.
+Proof.
+  cbn zeta.
+  split; [cbn; intuition discriminate|]. split; [cbn; intuition discriminate|]. split; [discriminate|].
+  split; [intros e He; cbn in He; destruct He as [<-|[<-|[]]]; cbn; tauto|].
+  split; [repeat constructor; cbn; intuition discriminate|].
+  split; [apply WalkWidth.st_ok_spec; vm_compute; reflexivity|].
+  split; (split; [discriminate|]; split; [intros x Hx; cbn in Hx |- *; tauto|]; split; [intros e He; cbn in He |- *; tauto|]; split; vm_compute; reflexivity).
+Qed.
+Print Assumptions C09_node_walk_width_premises_satisfiable.
+
+(* degenerate inputs of the node theorems, stated so that they cannot be mistaken for content: when EVERY node is ignored (or V is
+   empty) nothing has to be covered, the node width is 0, W = [] and A = [] are the witnesses, and the end-to-end theorem says
+   "Solved 0" for lb = 0.  The statements are true there for the right reason (0 paths cover nothing), but they say nothing about
+   what the implementation does on such an input; the claim text says so. *)
+Example C09_node_width_is_zero_when_everything_is_ignored :
+  forall (W : list (list node)) (A : list node),
+  (forall v, In v A -> In v xV /\ ~ In v xV) (* ign = V: the antichain of the theorem avoids every node *) -> length A = length W -> W = [].
+Proof.
+  intros W [|a A] H Hl; [destruct W; [reflexivity|discriminate Hl]|]. destruct (H a (or_introl eq_refl)) as [H1 H2]. contradiction.
+Qed.
+Print Assumptions C09_node_width_is_zero_when_everything_is_ignored.
+
+(* the SOLVER-SPECIFICATION hypotheses of C09_node_minpathcover_returns_the_node_width, jointly with the premises of
+   C09_node_width_premises_satisfiable: on the diamond with node 2 ignored the k-model of the expanded instance is feasible exactly for
+   k >= 1 (the expansion 100,2,3,6,7,8,9,101 of the path 1,3,4 covers every non-ignored edge; zero paths do not cover node 1's edge), so
+   feasible := (1 <=? k); from lb = 0 the statuses are Infeasible, Optimal, ... and the search returns the node width 1 *)
+Definition C09_nP (i : N) : list node := [100; 2; 3; 6; 7; 8; 9; 101]%N.
+Example C09_node_solver_hypotheses_satisfiable :
+  let ignore := synth (DilworthNode.expV xV) (DilworthNode.expE xV xE) 100%N 101%N ++ DilworthNode.node_ignore xE [2%N] in
+  let feasible := fun k => (1 <=? k)%nat in
+  let sts := map (fun k => mkraw (if feasible k then Optimal else Infeasible) false) (seq 0 (S (length (DilworthNode.expE xV xE)))) in
+  (forall k, feasible k = true <->
+     exists a, sat a (encode_kpc (cover_inst (DilworthNode.expV xV) (DilworthNode.expE xV xE) 100%N 101%N k) ignore)) /\
+  (forall i, (i < S (length (DilworthNode.expE xV xE)) - 0)%nat -> exists x, nth_error sts i = Some x /\
+             status_of x = if feasible (0 + i)%nat then Optimal else Infeasible) /\
+  so_res (mpc_solve true 0 (S (length (DilworthNode.expE xV xE))) sts) = Solved 1.
+Proof.
+  cbn zeta. destruct DilworthNode.node_diamond_premises as (Hs & Ht & Hst & HE & NDV & NDE & Htopo & Hincl).
+  split; [|split].
+  - intros k.
+    rewrite (kpc_feasible_iff (cover_inst (DilworthNode.expV xV) (DilworthNode.expE xV xE) 100%N 101%N k) _
+               (st_rank 100%N 101%N (DilworthNode.exp_topo [1; 2; 3; 4]%N)) (S (S (length (DilworthNode.exp_topo [1; 2; 3; 4]%N))))
+               (st_of_wf _ _ 100%N 101%N Hs Ht Hst (DilworthNode.expE_ends xV xE HE) (DilworthNode.expV_nodup xV NDV) (DilworthNode.expE_nodup xV xE NDV NDE))
+               eq_refl
+               (st_rank_increasing _ _ 100%N 101%N Hs Ht Hst (DilworthNode.expE_ends xV xE HE) _ (DilworthNode.exp_topo_increasing xV xE _ Hincl Htopo))
+               (fun v => st_rank_le 100%N 101%N Hst _ v)
+               (fun c e (Hc : In c []) => match Hc with end)).
+    rewrite Nat.leb_le. split.
+    + intros Hk. exists C09_nP. split; [split|intros n c Hn; destruct n; discriminate].
+      * intros i _. split; [reflexivity|]. split; [reflexivity|]. split; [repeat constructor; cbn; intuition discriminate|].
+        intros e He. vm_compute in He. vm_compute. tauto.
+      * intros e He Hig. exists 0%N. split; [destruct k; [lia|left; reflexivity]|].
+        vm_compute in He.
+        repeat (destruct He as [<-|He]; [first [vm_compute; reflexivity | vm_compute in Hig; discriminate Hig]|]). destruct He.
+    + intros (P & (_ & Hcov) & _). destruct k; [exfalso|lia].
+      destruct (Hcov (2, 3)%N ltac:(vm_compute; tauto) ltac:(vm_compute; reflexivity)) as (i & Hi & _). destruct Hi.
+  - intros i Hi. change (length (DilworthNode.expE xV xE)) with 8%nat in *.
+    do 9 (destruct i as [|i]; [eexists; split; reflexivity|]). lia.
+  - vm_compute. reflexivity.
+Qed.
+Print Assumptions C09_node_solver_hypotheses_satisfiable.
+
+From Coq Require String Ascii.
+(* an injective naming node -> string exists (unary names), so C09_node_expansion_is_the_expansion_of_C11 is not about nothing *)
+Fixpoint C09_unary (n : nat) : String.string := match n with O => String.EmptyString | S m => String.String (Ascii.ascii_of_nat 97) (C09_unary m) end.
+Example C09_an_injective_naming_exists : forall u v : node, C09_unary (N.to_nat u) = C09_unary (N.to_nat v) -> u = v.
+Proof.
+  assert (L : forall n, String.length (C09_unary n) = n) by (induction n as [|n IH]; [reflexivity|cbn; rewrite IH; reflexivity]).
+  intros u v H. apply N2Nat.inj. rewrite <- (L (N.to_nat u)), <- (L (N.to_nat v)), H. reflexivity.
+Qed.
+Print Assumptions C09_an_injective_naming_exists.
